@@ -56,10 +56,12 @@ class ChainGen:
         for op, p in zip(ops, parts[1:]):
             text += ' %s %s' % (op, p[0])
         kinds = ''.join(p[1][0] for p in parts)
+        self.containers = getattr(self, 'containers', []) + [p[1] for p in parts[1:]]
         return text, ops, kinds
 
     def function(self, name):
         self.k = 0
+        self.containers = []
         rng = self.rng
         text, ops, kinds = self.chain()
         ctx = rng.choice(['value', 'value', 'if', 'not', 'and', 'while', 'ifexp', 'assert'])
@@ -94,7 +96,8 @@ class ChainGen:
         src = '\n'.join(head + body + [ind + 'return r']) + '\n'
         opcls = '+'.join(sorted({o.replace(' ', '') for o in ops}))
         return {'name': name, 'family': 'chain-typed' if self.typed else 'chain', 'src': src, 'typed': self.typed,
-                'cls': '%s:len%d:%s:%s' % (ctx, len(ops), opcls, ''.join(sorted(set(kinds)))), 'ops': ops, 'ctx': ctx}
+                'cls': '%s:len%d:%s:%s' % (ctx, len(ops), opcls, ''.join(sorted(set(kinds)))), 'ops': ops, 'ctx': ctx,
+                'containers': list(self.containers), 'first_chain_len': len(ops) if ctx != 'and' else len(ops) - 1}
 
 
 # ------------------------------------------------------------------ membership against literal containers
@@ -138,7 +141,7 @@ def member_functions(rng, n, start=0):
             body = "    return (x %s %s) and 'yes'\n" % (op, lit)
         kinds = sorted({('str' if m.startswith("'") else 'bytes' if m.startswith('b') else 'num' if m[0].isdigit() or m[0] == '-' else 'other')
                         for m in members})
-        out.append({'name': name, 'family': 'member', 'src': 'def %s(x):\n%s' % (name, body), 'typed': False,
+        out.append({'name': name, 'family': 'member', 'src': 'def %s(x):\n%s' % (name, body), 'typed': False, 'br': br, 'selfref': selfref,
                     'cls': '%s:%s:%s:%s%s' % (op.replace(' ', ''), br, '+'.join(kinds), ctx, ':selfref' if selfref else '')})
     return out
 
@@ -163,7 +166,7 @@ def typed_member_functions(rng, n, start=0):
         ctx = rng.choice(['value', 'if'])
         body = ('    return x %s %s\n' % (op, lit)) if ctx == 'value' else ("    if x %s %s:\n        return 'T'\n    return 'F'\n" % (op, lit))
         out.append({'name': name, 'family': 'member-typed', 'src': 'def %s(x):\n%s' % (name, body),
-                    'pyx': 'def %s(%s x):\n%s' % (name, ct, body), 'typed': True, 'vals': vals,
+                    'pyx': 'def %s(%s x):\n%s' % (name, ct, body), 'typed': True, 'vals': vals, 'ct': ct, 'lit': lit,
                     'cls': '%s:%s:%s:%s' % (op.replace(' ', ''), ct, 'str' if lit[0] in "'b" and lit[0:2] != '(b' else lit[0], ctx)})
     return out
 
